@@ -283,6 +283,11 @@ def observe(ns):
     return box["st"]
 
 
+def observe_pruned(ns):
+    """like observe(), for a g whose callees are pruned: the probe runs but is not in the result"""
+    return observe(ns)
+
+
 def mk_repl():
     def repl_gen():
         yield 1
@@ -389,6 +394,26 @@ def check_latest_wins():
     observe(ns2)
     if log != ["twin"]:
         problems.append("registration on the twin: %r" % (log,))
+    # a customize() call with every option at its default is a registration like any other: it replaces what was there
+    ns3, ns4 = fresh_pair()
+    stackscope.customize(ns3["g"], hide=True, hide_line=True, prune=True)
+    st = observe_pruned(ns3)
+    if not (st.frames[0].hide and st.frames[0].hide_line and [f.funcname for f in st.frames] == ["g"]):
+        problems.append("setup: customize(hide, hide_line, prune) had no effect")
+    stackscope.customize(ns3["g"])
+    st = observe(ns3)
+    if st.frames[0].hide or st.frames[0].hide_line or [f.funcname for f in st.frames][:3] != ["g", "h", "probe"]:
+        problems.append("customize(f) with default options did not replace the earlier registration: hide=%r hide_line=%r frames=%r" % (
+            st.frames[0].hide, st.frames[0].hide_line, [f.funcname for f in st.frames]))
+    stackscope.elaborate_frame.register(ns4["g"], lambda f, n: setattr(f, "hide", True))
+    stackscope.customize(ns4["g"], hide=False)
+    if observe(ns4).frames[0].hide:
+        problems.append("customize(f, hide=False) did not replace an elaborate_frame.register hook")
+    dec = stackscope.customize()
+    stackscope.customize(ns4["g"], prune=True)
+    dec(ns4["g"])
+    if [f.funcname for f in observe(ns4).frames][:3] != ["g", "h", "probe"]:
+        problems.append("decorator form with default options did not replace the earlier prune registration")
     # dispatch on a frame of unrelated code returns the default implementation
     # registry is keyed by identity
     reg = stackscope.elaborate_frame.registry
